@@ -39,13 +39,13 @@ def fault_scenarios(tier):
                             out.append({"async": a, "mode": mode, "retry": retry, "max_attempts": ma, "ops": ops, "pre": pre, "fault": None})
                     # exceptions whose status / code attributes have unusual types (the no-retry paths hand them to default_classifier
                     # inside an exception handler, before anything is recorded)
-                    for shape in range(11):
+                    for shape in list(range(11)) + ["status_property_raises", "code_property_raises", "status_bool_raises"]:
                         out.append({"async": a, "mode": mode, "retry": retry, "max_attempts": 2, "ops": [["X", shape], ["V"]], "pre": pre,
                                     "fault": None})
     return out
 
 
-def fault_oracle(sc, r):
+def fault_oracle(sc, r, exactly_once=False):
     """C08 on one faulted call: an admitted call has told the breaker that it is over, no probe slot is left taken, and after the
     recovery timeout the next call is admitted"""
     if r["end"][0] == "driver_error":
@@ -63,6 +63,8 @@ def fault_oracle(sc, r):
            f", breaker {sc['pre']} at admission: ended with {r['end'][:2]}"
     if log[0][1] and not settles:
         return what + "; the admitted call never told the breaker that it is over"
+    if exactly_once and len(settles) > 1:
+        return what + f"; one admitted call reported to the breaker {len(settles)} times: {[e[0] for e in settles]}"
     if not log[0][1] and settles:
         return what + f"; rejected, yet reported {settles[0]}"
     if r["state"] == ["HALF_OPEN", True]:
@@ -72,15 +74,15 @@ def fault_oracle(sc, r):
     return None
 
 
-def fault_part(chk):
+def fault_part(chk, exactly_once=False):
     scs = fault_scenarios(chk.tier)
     res = common.run_driver("c08_fault_driver", scs, jobs=8)
-    bad = [(s, r, m) for s, r in zip(scs, res) for m in [fault_oracle(s, r)] if m]
+    bad = [(s, r, m) for s, r in zip(scs, res) for m in [fault_oracle(s, r, exactly_once)] if m]
     fired = sum(1 for s, r in zip(scs, res) if s.get("fault") and (r["end"][0] == "raise" or r["counts"].get(s["fault"]["where"], 0) >= s["fault"]["nth"]))
     chk.coverage["fault_injection_outside_model"] = {
         "scenarios": len(scs), "fault_reached": fired, "sites": list(FAULT_SITES),
-        "note": "oracle only (no theorem covers raising callbacks other than before_sleep/sleeper): admitted => settled, no probe left "
-                "in flight, next call admitted after the recovery timeout",
+        "note": "oracle only (no theorem covers raising callbacks other than before_sleep/sleeper): admitted => settled"
+                + (" exactly once" if exactly_once else "") + ", no probe left in flight, next call admitted after the recovery timeout",
     }
     chk.coverage["evaluations"] = chk.coverage.get("evaluations", 0) + len(scs)
     if bad:
@@ -108,7 +110,7 @@ def replay(path):
     r = json.load(open(path))
     if "fault_scenario" in r:
         o = common.run_driver("c08_fault_driver", [r["fault_scenario"]])[0]
-        m = fault_oracle(r["fault_scenario"], o)
+        m = fault_oracle(r["fault_scenario"], o, exactly_once=r.get("property") == "C09")
         print("observed:", json.dumps(o)[:800])
         print("oracle:", m or "holds")
         return 1 if m else 0
